@@ -1026,6 +1026,9 @@ def rt_master_font_desc(loc, k, frac, empty_s=False, glyph_names=None, default=F
         "features": "feature liga { sub a b by c; } liga;" if default else "",
         "order": [n for n in GLYPHS if glyph_names is None or n in glyph_names],
     }
+    if not default and "b" in d["glyphs"]:
+        # a non-default master whose code points differ from the default's: instances must take the DEFAULT source's
+        d["glyphs"]["b"]["unicodes"] = [0x62, 0x42 + k]
     return d
 
 
